@@ -206,20 +206,28 @@ def case_id(c):
 def run_processes(chk, t, cases, seeds, with_rich=True):
     """-> {seed: {case id: dump}}"""
     jobs = []
+    import shutil
     for k, s in enumerate(seeds):
-        vdir = os.path.join(chk.scratch, "variant%d" % k)
-        write_variant(vdir, k, t)
-        mine = []
-        for c in cases:
-            mine.append({"id": case_id(c), "kind": "uservars", "package": os.path.join(vdir, "uv.package"),
-                         # relative to the worker's cwd (the variant directory): the order in which the unfixed code layers the
-                         # files depends on the hash of these very strings, they must not contain the pid of this run
-                         "variable_files": [os.path.relpath(var_path(vdir, f, c["shape"][f - 1]), vdir) for f in c["order"]],
-                         "instantiate": c.get("instantiate", False)})
-        extra = rich_cases(vdir) if with_rich else []
-        nsl = max(1, min(t["slices"], len(mine)))
+        vdir0 = os.path.join(chk.scratch, "variant%d" % k)
+        write_variant(vdir0, k, t)
+        nsl = max(1, min(t["slices"], len(cases)))
         for j in range(nsl):
-            part = mine[j::nsl] + (extra if j == 0 else [])
+            # every worker process gets its own copy of the variant (package directories included): loading a package writes
+            # instance files into its conf directory, so processes sharing one package directory would disturb each other
+            vdir = vdir0 if j == 0 else os.path.join(chk.scratch, "variant%d_s%d" % (k, j))
+            if j:
+                shutil.copytree(vdir0, vdir, symlinks=True)
+        for j in range(nsl):
+            vdir = vdir0 if j == 0 else os.path.join(chk.scratch, "variant%d_s%d" % (k, j))
+            mine = []
+            for c in cases[j::nsl]:
+                mine.append({"id": case_id(c), "kind": "uservars", "package": os.path.join(vdir, "uv.package"),
+                             # relative to the worker's cwd (the variant directory): the order in which the unfixed code layers the
+                             # files depends on the hash of these very strings, they must not contain the pid of this run
+                             "variable_files": [os.path.relpath(var_path(vdir, f, c["shape"][f - 1]), vdir) for f in c["order"]],
+                             "instantiate": c.get("instantiate", False)})
+            extra = rich_cases(vdir) if (with_rich and j == 0) else []
+            part = mine + extra
             job = {"scratch": os.path.join(chk.scratch, "w%d_%d" % (k, j)), "cwd": vdir, "listing_seed": verif_seed() * 7919 + 31 * k + j + 1, "cases": part}
             jp = os.path.join(chk.scratch, "job_%d_%d.json" % (k, j))
             with open(jp, "w") as f:
